@@ -38,7 +38,7 @@ type c15Env struct {
 }
 
 var c15Sources = map[string]string{
-	"ok.p":     "add_key(k, 1)\nx = 5\nadd_key(y, x)\nset_measurement(\"mm\")\nadd_key(total, f1 + 1)\nadd_key(where, t1 + \"!\")\nadd_key(twice, f2 * 2)\nsql_cover(sq)\n",
+	"ok.p":     "add_key(k, 1)\nx = 5\nadd_key(y, x)\nset_measurement(\"mm\")\nadd_key(total, f1 + 1)\nadd_key(where, t1 + \"!\")\nadd_key(twice, f2 * 2)\nsql_cover(sq)\nstrfmt(out, \"%v/%v\", f1, f2)\nprintf(\"%v|%v\\n\", f1, t1)\n",
 	"loop.p":   "secret = \"leaked-by-loop\"\nsecret2 = [9]\nfor i in [1, 2, 3] {\n inner = i\n add_key(k, i)\n if i == 2 { p(1 / zz) }\n}\n",
 	"exit.p":   "x = 1\nsecret = \"leaked-by-exit\"\nfor i in [1, 2] { if i == 1 { if true { inner = 7\nadd_key(e, i)\nexit() } } }\nadd_key(after, 1)\n",
 	"setv.p":   "secret = 42\nsecret2 = [1, 2]\n_ = \"shadowed message\"\nadd_key(done, 1)\n",
@@ -51,6 +51,7 @@ var c15Sources = map[string]string{
 	"jsonmut.p": "j = load_json(fj)\nj[\"a\"][0] += 1\nj[\"level\"] = \"masked\"\nadd_key(ja, j[\"a\"][0])\nadd_key(jl, j[\"level\"])\n",
 	"badre.p":   "add_key(before, 1)\nreplace(message, \"(unclosed\", \"x\")\nadd_key(after, 1)\n",
 	"usebad.p":  "add_key(k, len(message))\nuse(\"badre.p\")\n",
+	"pf.p":      "x = [1, 2]\nfor i = 0; i < 5; i = i + 1 { printf(\"%v %v\\n\", \"item\", x[i]) }\n",
 	"lit.p":    "g = [[0, 0], [1]]\ng[0][0] += 1\nm = {\"k\": [0], \"j\": {\"n\": 0}}\nm[\"k\"][0] += 1\nm[\"j\"][\"n\"] = m[\"j\"][\"n\"] + 1\nadd_key(g0, g[0][0])\nadd_key(mk, m[\"k\"][0])\nadd_key(mj, m[\"j\"][\"n\"])\nif \"a\" in [\"a\", \"b\"] { add_key(found, true) }\nsql_cover(sq)\nset_tag(newtag, \"set on a point that came without tags\")\n",
 }
 
@@ -139,6 +140,8 @@ func c15Ops() []c15Op {
 		load("lexer-error", "a = \"unterminated\nb = 2\n"),
 		load("parser-panic-input", "x = -0x\nfor a in 1e {}\n"),
 		load("check-error", "add_key(k, 1)\nnosuch(1)\n"),
+		load("check-error-inside-loops", "for ;; { for v in [1] { nosuch(1) } }\n"),
+		load("stray-break", "x = 1\nif x { break }\n"),
 		// every lexer mode entered and left: back-quoted names, the three string forms, comments, nesting
 		load("all-token-kinds", "`a b` = [1, {\"k\": `q r`}, 'x', \"\"\"m\nn\"\"\", '''t'''] # c\nif `a b`[0] == 0x1F && !nil { f(a.b, x=1.5e3) } elif c { for i in a { break } } else { s = \"\\x41\\u00e9\" }\n"),
 		// errors whose text depends on the lexer's mode flags and nesting counters
@@ -156,6 +159,7 @@ func c15Ops() []c15Op {
 		runOp("spin.p", 1, 7),
 		runOp("jsonmut.p", 0, 0),
 		runOp("usebad.p", 0, 0),
+		runOp("pf.p", 1, 0),
 	}
 }
 
